@@ -448,6 +448,7 @@ func (e *Env) Case() *HCase {
 
 // Finish records the case in the statistics and classifies it by the property's non-trivial rule.
 func (e *Env) Finish() {
+	e.recheckBackups("")
 	e.St.Eval(1)
 	switch {
 	case e.liveMax > 64:
